@@ -240,3 +240,24 @@ func C06_Diagnostics() {
 	verif.Assert(err != nil, "syntax errors reported")
 	verif.Reach("returned")
 }
+
+// C06_BindForms: every selector x target spelling of bind (valid or not) with
+// zero, one and two blocks of the bound type, at toplevel or inside a block:
+// a result or an error, never a panic.
+func C06_BindForms() {
+	n := verif.Choice("blocks", 3)
+	src := "def other {\n}\n"
+	for i := 0; i < n; i++ {
+		src += "def t \"n" + itoa(i) + "\" {\n f = " + itoa(i) + "\n}\n"
+	}
+	b := c04Binds[verif.Choice("bind", len(c04Binds))]
+	if verif.Choice("inside", 2) == 1 {
+		src += "def w {\n " + b + "\n}\n"
+	} else {
+		src += b + "\n"
+	}
+	if verif.Choice("again", 2) == 1 {
+		src += b + "\n"
+	}
+	c06Run([]byte(src), false)
+}
